@@ -45,6 +45,9 @@ var rules = []rule{
 	{"internal/upstream/transport", map[string][2]string{
 		"sync": {fac + "vsync", "sync"},
 	}, map[string][]string{"reuse_transport.go": {"t.idleConns", "t.conns"}}},
+	{"internal/dnsmsg", map[string][2]string{
+		"sync": {fac + "vsync", "sync"},
+	}, nil},
 	{"internal/pool", map[string][2]string{
 		"github.com/IrineSistiana/bytespool": {fac + "vbytes", "bytespool"},
 		"github.com/IrineSistiana/gopool":    {fac + "vgopool", "gopool"},
